@@ -1,8 +1,8 @@
 (* C03 — a design enters P exactly when no active region can still eps-cover it; members never
    leave P; useful designs; Auer's hold-back.  Over the REGENERATED transitions (Gen_algos.v). *)
 From Coq Require Import List Bool Arith.
-From VOPy Require Import Spec Invariants AlgoRefine AlgoProps.
-From VOPyGen Require Import Gen_algos.
+From VOPy Require Import Spec Invariants AlgoRefine AlgoProps Tables AuerRefine.
+From VOPyGen Require Import Gen_algos Gen_auer.
 Import ListNotations.
 
 Theorem C03_paveba_enters : forall E st i, wf_state st ->
@@ -84,3 +84,17 @@ Theorem C03_auer_enters : forall domB covB pessB st i, wf_state st ->
    (forall k, In k S1 -> ~ In k P1 -> pessB k i = false)).
 Proof. exact au_enters_iff. Qed.
 Print Assumptions C03_auer_enters.
+
+(* Auer's discarding ; pareto_updating REGENERATED from vopy/algorithms/auer.py (Gen_auer.v) are the
+   reference round with the numeric gap predicates m(i,j) > beta_i + beta_j, M(i,j) < .., M(i,p) <= .. *)
+Theorem C03_auer_regenerated_is_reference : forall A st,
+  auer_compose A st = au_round (a_dom A) (a_cov A) (a_hold A) st.
+Proof. exact auer_round_refines. Qed.
+Print Assumptions C03_auer_regenerated_is_reference.
+
+(* the width row a test reads for a design (beta_row, built in modeling()) is the row its displayed
+   region was built with, whatever S has shrunk to since *)
+Theorem C03_auer_width_row_is_displayed_row : forall S pt, In pt S ->
+  assoc pt (auer_beta_row S) = assoc pt (auer_update_row S) /\ assoc pt (auer_beta_row S) = Some (index pt S).
+Proof. intros S pt H. split; [exact (auer_row_matches_region S pt H) | exact (auer_row_is_modeling_position S pt H)]. Qed.
+Print Assumptions C03_auer_width_row_is_displayed_row.
